@@ -188,6 +188,8 @@ pub fn get(prop: &str, tier: &str) -> Option<Check> {
             prop: "C07",
             rule_text: "each run: grammar-aware garbage (valid frames, bit flips, truncations, length-field lies, raw random bytes, long 0x00/0xFF runs, repeats; up to 4000 bytes, random chunking and pauses) fed to {TCP server sessions next to a healthy session, RTU server, TCP client with an outstanding request or idle, RTU client} at a random one of the 36 decode levels with every log line formatted, overflow checks and debug assertions on; oracle: no task poll panics, no task is polled 5000 times in a row or performs 300000 I/O operations inside one poll, the healthy session answers its sentinel, every submitted request completes exactly once, a follow-up exchange succeeds after the garbage, shutdown ends every task. Plus every other batch of this harness reports task panics under C07. Distinct = hash of (role, decode level, garbage prefixes).",
             batches: vec![
+                Batch { name: "tls_corruption_server", f: scen::tls::run_tls_corruption, cfg: cfg(Mode::Racy, true, 0), runs: n(600, 30_000), real: REAL_TLS, stub: STUB_TLS },
+                Batch { name: "tls_corruption_client", f: scen::tls::run_tls_corruption, cfg: cfg(Mode::Racy, true, 1), runs: n(600, 30_000), real: REAL_TLS, stub: STUB_TLS },
                 // configurations at the edge (max_sessions = 0) and session churn: a task that loops without yielding is caught by the hang watchdog
                 Batch { name: "server_sessions", f: scen::sessions::run_sessions, cfg: cfg(Mode::LockStep, false, 0), runs: n(20_000, 500_000), real: REAL_SERVER_TCP, stub: STUB_SERVER_TCP },
                 Batch { name: "garbage_tcp_server", f: scen::robust::run, cfg: cfg(Mode::Racy, true, 0), runs: n(40_000, 1_500_000), real: REAL_SERVER_TCP, stub: STUB_SERVER_TCP },
